@@ -198,6 +198,10 @@ func VerifDir() string {
 }
 
 // BinDir is where the check script put the binaries it built.
+// Subcommands are extra command-line verbs registered by check packages
+// (e.g. "solotask": one C14 task in a fresh process).
+var Subcommands = map[string]func(args []string) int{}
+
 func BinDir() string {
 	b := os.Getenv("VERIF_BIN")
 	if b == "" {
